@@ -376,6 +376,7 @@ func coordinate(p *Prop) int {
 	if p.Post != nil {
 		p.Post(r)
 	}
+	auxRace(p, r)
 	return r.Finish()
 }
 
@@ -439,4 +440,46 @@ func filter(scs []*mcrt.Scenario) []*mcrt.Scenario {
 		}
 	}
 	return out
+}
+
+// auxRace runs the auxiliary, non-deciding race-detector pass when the check
+// script has built it (MC_AUXRACE_BIN): uninstrumented packages, real
+// goroutines, -race.  A report is a true violation (the detector has no false
+// positives); silence is recorded as sampled evidence only.
+func auxRace(p *Prop, r *ev.Run) {
+	bin := os.Getenv("MC_AUXRACE_BIN")
+	if bin == "" {
+		return
+	}
+	cmd := exec.Command(bin, p.ID)
+	cmd.Env = append(os.Environ(), "GORACE=halt_on_error=1 exitcode=66")
+	out, err := cmd.CombinedOutput()
+	code := 0
+	if ee, ok := err.(*exec.ExitError); ok {
+		code = ee.ExitCode()
+	} else if err != nil {
+		r.Extra["auxiliary_race_pass"] = "could not run: " + err.Error()
+		return
+	}
+	text := string(out)
+	switch {
+	case code == 66 || strings.Contains(text, "WARNING: DATA RACE"):
+		site := ""
+		for _, l := range strings.Split(text, "\n") {
+			if strings.Contains(l, "github.com/goblimey/go-ntrip/") && site == "" {
+				site = strings.TrimSpace(l)
+				if i := strings.Index(site, "("); i > 0 {
+					site = site[:i]
+				}
+				site = strings.TrimPrefix(site, "github.com/goblimey/go-ntrip/")
+			}
+		}
+		r.Violate(ev.Violation{Fingerprint: p.ID + " data-race reported by the race detector at " + site, What: "auxiliary free-running -race pass: DATA RACE",
+			Case: map[string]interface{}{"report": truncate(text, 3000)}, ReplayKind: "auxrace"})
+		r.Extra["auxiliary_race_pass"] = "DATA RACE reported"
+	case code != 0:
+		r.Violate(ev.Violation{Fingerprint: p.ID + " free-running pipeline delivered wrong data (auxiliary pass)", What: truncate(text, 500), Case: map[string]interface{}{"output": truncate(text, 3000)}, ReplayKind: "auxrace"})
+	default:
+		r.Extra["auxiliary_race_pass"] = "auxiliary, sampled, NOT part of the coverage claim: " + strings.TrimSpace(text)
+	}
 }
